@@ -272,6 +272,8 @@ impl<T> TimerThread<T> {
                 t.unpark();
             }
         }
+        #[cfg(may_verif)]
+        crate::verif::note("timer.added", 0, 0);
         h
     }
 
